@@ -114,6 +114,9 @@ pub struct AuthOp {
     pub allow: AllowSel,
     pub cd: CdMode,
     pub uv: u8,
+    /// request a PRF evaluation with this input (extension request)
+    #[serde(default)]
+    pub prf: Option<Vec<u8>>,
 }
 
 #[derive(Clone, Debug, Serialize, Deserialize, PartialEq)]
@@ -216,6 +219,7 @@ pub struct Stats {
     pub auth_not_found: u64,
     pub auth_unexpected_err: u64,
     pub auth_faulted_err: u64,
+    pub auth_prf_refused: u64,
     pub counted_assertions: u64,
     pub last_error: String,
 }
@@ -527,7 +531,12 @@ impl<S: StoreAccess> Runner<S> {
         let eligible: Vec<usize> = self.model.iter().enumerate().filter(|(_, m)| m.rp == site.effective && named.as_ref().map_or(true, |n| n.contains(&m.id))).map(|(i, _)| i).collect();
         let before = self.store_snapshot();
         self.client.authenticator().store().clear_log();
-        let req = cer::request_options(site.rp, &op.challenge, allow, cer::uv_req(op.uv), None);
+        let ext = op.prf.as_ref().map(|i| passkey_types::webauthn::AuthenticationExtensionsClientInputs {
+            cred_props: None,
+            prf: Some(passkey_types::webauthn::AuthenticationExtensionsPrfInputs { eval: Some(passkey_types::webauthn::AuthenticationExtensionsPrfValues { first: i.clone().into(), second: None }), eval_by_credential: None }),
+            prf_already_hashed: None,
+        });
+        let req = cer::request_options(site.rp, &op.challenge, allow, cer::uv_req(op.uv), ext);
         let origin = site.origin();
         let res = catch_unwind(AssertUnwindSafe(|| match &op.cd {
             CdMode::Default => block_on(self.client.authenticate(origin, req, DefaultClientData)),
@@ -560,6 +569,14 @@ impl<S: StoreAccess> Runner<S> {
                 Ok(())
             }
             Err(e) => {
+                // a failed authentication may have advanced the selected credential's counter by one (C07)
+                for m in self.model.iter_mut() {
+                    if let (Some(a), Some(prev)) = (after.iter().find(|s| s.id == m.id), m.counter) {
+                        if a.counter == Some(prev.saturating_add(1)) {
+                            m.counter = a.counter;
+                        }
+                    }
+                }
                 if eligible.is_empty() {
                     self.stats.auth_not_found += 1;
                     if self.oracles.c03 && e != WebauthnError::CredentialNotFound {
@@ -568,6 +585,9 @@ impl<S: StoreAccess> Runner<S> {
                     if self.oracles.c03 && after != before {
                         return Err("a failed authentication changed the store".into());
                     }
+                } else if op.prf.is_some() && self.cfg.hmac.enabled() {
+                    // a PRF request on a credential without (suitable) secrets is refused by the authenticator
+                    self.stats.auth_prf_refused += 1;
                 } else if self.faulted {
                     self.stats.auth_faulted_err += 1;
                     if self.oracles.c08 && after != before {
@@ -739,7 +759,7 @@ pub fn allow_sel() -> impl Strategy<Value = AllowSel> {
 
 pub fn auth_op(sites: Vec<usize>) -> impl Strategy<Value = AuthOp> {
     let n = sites.len();
-    (any::<u16>(), bytes(128), allow_sel(), cd_mode(), any::<u8>()).prop_map(move |(s, challenge, allow, cd, uv)| AuthOp { site: sites[idx(s, n)], challenge, allow, cd, uv })
+    (any::<u16>(), bytes(128), allow_sel(), cd_mode(), any::<u8>()).prop_map(move |(s, challenge, allow, cd, uv)| AuthOp { site: sites[idx(s, n)], challenge, allow, cd, uv, prf: None })
 }
 
 pub fn auth_cfg() -> impl Strategy<Value = AuthCfg> {
